@@ -211,7 +211,7 @@ PLANS["C04"] = {
                                   {"name": "udp_stress", "bin": "udp_stress", "args": ["--rounds", "3000", "--budget_s", "40"], "timeout_s": 400}] if tier == "quick" else
                                  [{"name": "udp_sched", "bin": "udp_sched", "args": ["--max_leaves", "2000000", "--budget_s", "500"], "timeout_s": 1500}]
                                  + shards("udp_stress", "udp_stress", 12, ["--rounds", "100000000", "--budget_s", "300"], timeout_s=1200)),
-    "min_evaluations": {"quick": 2000, "thorough": 15000},
+    "min_evaluations": {"quick": 300, "thorough": 3000},
     "assumptions": ["exhaustive only for the listed program shapes and at probe granularity (every shared access lies inside a critical section between two probes)",
                     "liveness restated as bounded progress: no 4 s stall with every thread released (enumeration), no 30 s stall under load (stress)"],
     "level_text": "Exploration, systematic for small programs: (1) twelve program templates of 2-3 threads x 1-3 operations (fresh torrent races, announce vs clean on an expired-only or stopped-empty torrent, stop/announce/clean, scrape vs announce, same key twice, inline<->heap switches raced with clean, two cleaners) are executed under every interleaving of their critical sections by parking threads at the probes; each leaf is a real execution whose replies, final scrape and observer read-out must be linearizable per torrent; a released thread that cannot reach its next probe is a forced switch, nobody runnable is a deadlock witness. (2) 6-12 free-running threads with injected yields/sleeps at the same probes, per-round histories checked by the same checker.",
